@@ -423,9 +423,36 @@ def check_design(case):
     return None
 
 
+NEAR_ONE = [(19999, 20000), (999999, 1000000), (9999, 10000), (99999999, 100000000)]     # 0.99995, 0.999999, 0.9999, 1 - 1e-8
+
+
+def near_singular(rng, k):
+    """valid, NEARLY singular but positive-definite assignments (PD decided by exact minors): |rho| just below 1 for a
+    pair; triples whose smallest eigenvalue is 1e-4 ... 1e-8.  No fallback is due: the draws must carry them"""
+    n, d = rng.choice(NEAR_ONE)
+    s = rng.choice([1, -1])
+    if k == 2:
+        return [[0, 1, s * n, d]]
+    shape = rng.randrange(4)
+    if shape == 0:          # all three pairs almost fully correlated
+        return [[0, 1, n, d], [0, 2, n, d], [1, 2, n, d]]
+    if shape == 1:          # the same with one variable mirrored
+        return [[0, 1, -n, d], [0, 2, -n, d], [1, 2, n, d]]
+    if shape == 2:          # one pair only
+        pa, pb = rng.choice([(0, 1), (0, 2), (1, 2)])
+        return [[pa, pb, s * n, d]]
+    # rho12 close to the value rho01*rho02 + sqrt((1-rho01^2)(1-rho02^2)) that makes the matrix singular: 0.6, 0.8 -> 0.96
+    eps_n, eps_d = rng.choice([(1, 10000), (1, 1000000)])
+    f = Fraction(24, 25) - Fraction(eps_n, eps_d)
+    return [[0, 1, 3, 5], [0, 2, 4, 5], [1, 2, f.numerator, f.denominator]]
+
+
 def gen_design_case(rng):
     k = rng.choice([1, 2, 2, 3, 3, 3])
     kind, corr_pos = gen_corr(rng, k)
+    near = k >= 2 and rng.random() < 0.25
+    if near:
+        corr_pos = near_singular(rng, k)
     if k == 3 and rng.random() < 0.3:
         t = rng.choice(CANCEL3_DYADIC)
         corr_pos = [[i, j] + frac(*v) for (i, j), v in zip(((0, 1), (0, 2), (1, 2)), t) if v[0] != 0]
@@ -434,11 +461,15 @@ def gen_design_case(rng):
         rho[(i, j)] = rho[(j, i)] = Fraction(num, den)
     # the covariance of the draws does not depend on the order of the sources: positions are used as creation indices
     sources, _ = mc.gen_sources(rng, k, repeated_ok=True, positive_error=True)
+    if near:        # ordinary magnitudes: the small variance of a - b must stay visible next to the central values
+        sources = [mc.gen_source(rng, repeated_ok=False, positive_error=True) for _ in range(k)]
     equalize(rng, sources)
     rounds = []
     if k >= 2 and rng.random() < 0.6:
         for _ in range(rng.randint(1, 3)):
             kind2, cp2 = gen_corr(rng, k)
+            if near and rng.random() < 0.6:
+                cp2 = near_singular(rng, k)
             if k == 3 and rng.random() < 0.3:
                 t2 = rng.choice(CANCEL3_DYADIC)
                 cp2 = [[i, j] + frac(*v_) for (i, j), v_ in zip(((0, 1), (0, 2), (1, 2)), t2) if v_[0] != 0]
@@ -450,8 +481,14 @@ def gen_design_case(rng):
         for rnd in rounds:      # covariance forms use std, which differs from the uncertainty for readings: keep to correlations
             for c in rnd["set"]:
                 c[4] = c[4].replace("cov-", "")
+    coef = [fx(rng.choice([1.0, -1.0, 2.0, 0.5, -1.5, 3.0])) for _ in range(k)]
+    if near and rng.random() < 0.6:     # the difference of the almost fully correlated pair: variance nearly cancels
+        i_, j_, n_, _d = corr_pos[0]
+        e_i, e_j = float.fromhex(sources[i_]["error"]), float.fromhex(sources[j_]["error"])
+        coef = [fx(0.0)] * k
+        coef[i_], coef[j_] = fx(1.0 / e_i if e_i else 1.0), fx((-1.0 if n_ > 0 else 1.0) / e_j if e_j else 1.0)
     return {"sources": sources, "corr": corr_pos, "pd": minors_pd(k, rho), "rounds": rounds,
-            "coef": [fx(rng.choice([1.0, -1.0, 2.0, 0.5, -1.5, 3.0])) for _ in range(k)],
+            "coef": coef,
             "const": fx(rng.choice([0.0, 1.0, -2.5])), "size_mode": rng.choice(["global", "own"])}
 
 
